@@ -29,7 +29,8 @@ CLAIMED["C04"] = (
     "every segmentation of 13 scaled layouts x 2 adapters (NoStall, NeverAhead, NoErrorOnValid, NoPanic, Complete) and that each named "
     "defect class violates them; simulated segmentations are mapped onto real streams of every protocol/cipher (real and reference "
     "producers) and delivered through the real adapters; hundreds of systematic/random runs are recorded and validated by TLC against "
-    "the same design instantiated with each run's real field lengths, every invariant in every state.",
+    "the same design instantiated with each run's real field lengths, every invariant in every state; every third reference-made Shadowsocks "
+    "request starts with an address-only first chunk (the connect item is owed when it has arrived).",
     TB + "; field boundaries from the reference opener", "5.4")
 CLAIMED["C05"] = (
     "model_checking", "TLA+ StreamCodec with attacker (tamper point x segmentation x end of stream, TLC exhaustive) + DatagramTamper, concrete attacks replayed through the real adapters, trace validation",
@@ -52,13 +53,15 @@ CLAIMED["C07"] = (
     "local handshake for every segmentation/early close, and the malformed-content catalogue; each named unguarded-read deviation must violate it. The catalogue "
     "(right keys, wrong content) is built with the reference codec and judged by the real decoders; exhaustive short inputs, seeded random inputs and every truncation "
     "of valid streams with end of stream go through the real adapters under catch_unwind; hostile local handshakes run over real TCP; recorded attacked runs are "
-    "validated by TLC with NoPanic evaluated in every state.",
+    "validated by TLC with NoPanic evaluated in every state. The catalogue includes every VMess option mask and security code (the server's first "
+    "answer for a served request is written too), VMess response headers shorter than their fixed bytes, and extreme 64-bit timestamps in every sealed Shadowsocks 2022 header.",
     TB + "; undefined behaviour that does not crash is not observable and not claimed", "5.7")
 CLAIMED["C14"] = (
     "model_checking", "TLA+ Address model (symbolic bytes; both encodings; every name length), each case entered through the client's real doors and round-tripped through the real encoders/decoders",
     "TLC enumerates every (encoding style, address kind, name length class - every length 0..1024 in the thorough tier, tail) with symbolic bytes, so truncation or "
     "re-interpretation of any byte shows, checks ExactOrRefused and that the former 'len as u8' behaviour violates it; each case is presented at the client's real doors "
-    "(SOCKS5 request, HTTP request line, CONNECT, local UDP datagram) and every admitted address goes through the real encode/length/try_decode_at/decode of its style with a tail.",
+    "(SOCKS5 request, HTTP request line, CONNECT, local UDP datagram) and every admitted address goes through the real encode/length/try_decode_at/decode of its style with a tail, "
+    "and through the real client codec and the real server codec of Trojan, Shadowsocks (legacy, 2022) and VMess with the tail as first payload (connect item for exactly that address, at once).",
     TB, "5.14")
 CLAIMED["C06"] = (
     "model_checking", "TLA+ Auth model (configuration x attacker knowledge x message form, TLC exhaustive), every case built with the reference codec and judged by the real server codecs; reply key identified by the reference opener",
@@ -72,26 +75,30 @@ CLAIMED["C12"] = (
     "Reduced scope: distinctness and counter rules, not unpredictability. TLC checks the sender design (fresh randomness selects the key; one counter per cipher stepping once per sealed "
     "unit; ledger of (key, nonce) pairs) and that four named deviations reuse a pair; the real encoders of every protocol, cipher and direction (streams and datagrams, writes from 1 byte to "
     "70 000 bytes, many sessions) are driven, their output is opened by the reference opener, and TLC validates every session's unit trace: counters 0,1,2,.., no pair twice, grammar, "
-    "limits, and all salts / session ids / VMess keys, IVs, auth ids and connection nonces pairwise distinct.",
+    "limits, and all salts / session ids / VMess keys, IVs, auth ids and connection nonces pairwise distinct; SentFresh: codecs created at one clock offset and first used 0 / 31 / 45 / 300 s "
+    "later (clock hook) must stamp their first unit with the time of sending (deviation StampAtCreate).",
     TB + "; reference opener recovers the nonce of every unit", "5.12")
 CLAIMED["C03"] = (
     "model_checking", "TLA+ WireScripts catalogue + Wire/TraceWire grammar; every script run in both directions between the real codecs and an independent reference codec; unit traces validated by TLC",
     "Reduced scope: TLC cannot compute KDFs or ciphers; that fidelity rests on the independent reference codec. TLC enumerates 1 172 message scripts (family x direction x encoder x write sizes "
     "around each sender limit x all eight VMess option masks); each is realised by the real encoder and read by the reference opener, or realised by the reference encoder (including legal "
     "choices the real one never makes) and read by the real decoder, comparing target address, payload and per-unit sender limits; the real encoders' output is also validated as unit traces "
-    "against the Wire grammar (order of units, key class, counters, limits).",
+    "against the Wire grammar (order of units, key class, counters, limits, SentFresh: the timestamp on a session's first unit is the time it was sent).",
     TB + "; reference codec = my offline reading of SIP004/007/022/023, v2ray VMess AEAD, Trojan", "5.3")
 TBE = TB + "; Engine B (lib/e2e.py): real client/server processes, scripted applications/targets in one asyncio loop; loopback only"
 CLAIMED["C01"] = (
-    "model_checking", "TLA+ RelayAbs (abstract flow) + TcpRelay (kernel pipes, pumps, relays, grace timer, link kinds; TLC refinement + liveness, deviations), scripts exported by TLC executed on real client/server processes, every recorded flow validated by TLC against TraceRelay",
+    "model_checking", "TLA+ RelayAbs (abstract flow incl. half-close completeness) + TcpRelay (bounded kernel pipes, sink write buffers, pumps, relays, grace timer, link kinds tcp/tls/quic/ws; TLC refinement + liveness, deviations), scripts exported by TLC and half-close / back-pressure / idle scripts executed on real client/server processes, every recorded flow validated by TLC against TraceRelay",
     "TLC checks that the code-shaped TcpRelay design (Linux TCP reset semantics, QUIC stream shutdown, TLS noise, Stream::forward pumps, select + grace in both relays) refines the abstract per-flow "
     "specification RelayAbs for tcp, tls and quic links and for failing dials, with PromptEnd/Released as liveness, and that each named deviation (try_join teardown, QUIC shutdown without waiting, "
     "join without timer, sink never closed) violates it; TLC enumerates every environment script up to 5 steps (who writes which size class, where everything must have arrived, who closes first and "
     "how); sampled scripts (size classes concretised around each protocol's chunk limits) and randomised scripts (1 B .. MiB, pauses, three local handshake kinds, three close kinds, concurrent) are "
-    "executed against the real binaries on a spread of README configurations (all 50 in the thorough tier) and each flow's observations (position-checked spans, dial, ends) are validated by TLC.",
+    "executed against the real binaries on a spread of README configurations (all 50 in the thorough tier) and each flow's observations (position-checked spans, dial, ends) are validated by TLC. "
+    "RelayAbs includes HalfCloseComplete (a side that only finished sending is owed the complete answer; Lapse after silence longer than the close grace); TcpRelay has bounded kernel queues and "
+    "sink write buffers, link kind ws and the deviations WsCloseEndsBoth (open finding), CloseSkipsFlush, NoKeepAlive; further script families on real processes: half-close then answer, "
+    "back-pressure (slow reader, 20+ MB, writer closes at once), slow drain beyond the close grace, flows idle for 32 s before their first payload.",
     TBE, "5.1")
 CLAIMED["C15"] = (
-    "model_checking", "TLA+ TcpRelay with link-failure action (TLC: PromptEnd / Released / FaultEnds as liveness under weak fairness, deviations), ending scripts exported by TLC executed on real client/server processes behind a link-cutting middlebox, every flow and the Idle/Settled descriptor counts validated by TLC against TraceRelay",
+    "model_checking", "TLA+ TcpRelay with link-failure action (TLC: PromptEnd / Released / FaultEnds as liveness under weak fairness, deviations) + SinkClose (close under back-pressure; schedules replayed on the real WebSocketFramed sink, validated against TraceSinkClose), ending / hold / slow-drain / slow-link scripts executed on real client/server processes behind a middlebox, every flow and the Idle/Held/Settled descriptor counts validated by TLC against TraceRelay",
     "TLC checks on the code-shaped TcpRelay design (kernel pipes with reset semantics, four forward pumps, select + 2 s grace in both relays, QUIC "
     "shutdown, TLS noise, link failure) that after any close, reset, failed dial or link failure the other side observes an end and both relays drop "
     "the flow, for tcp, tls and quic links, and that JoinBoth / NoSinkClose / IgnoreLinkErr / DropOnFirstClose violate it; TLC enumerates every "
